@@ -118,6 +118,39 @@ Definition creation_rel_ok (r : option relopt) : bool :=
   | _ => false
   end.
 
+(** A symbol that brings a path symbol of forbidden relativity (home, act-home, result, absolute) into an
+    argument - as the path it is relative to, as a leading reference, or as a path component through any
+    number of string symbols that concatenate several references: "a path symbol whose value is relative
+    to a home directory or the result directory, or is absolute - however many symbol definitions it is
+    routed through - is rejected before execution". *)
+Definition frag_syms (fs : list frag) : list sym :=
+  flat_map (fun f => match f with FSym k => [k] | FConst _ => [] end) fs.
+
+Definition arg_syms (a : parg) : list sym :=
+  (match pa_rel a with RSym k => [k] | _ => [] end) ++
+  (match pa_str a with Some t => frag_syms (st_frags t) | None => [] end).
+
+Fixpoint illegal_in_sym (here : text) (defs : list (sym * sdef)) (n : sym) : bool :=
+  match defs with
+  | [] => false
+  | (m, d) :: rest =>
+      if N.eqb m n then
+        match d with
+        | SDString fs => existsb (illegal_in_sym here rest) (frag_syms fs)
+        | SDPath a =>
+            (match spec_arg (spec_sym here rest) RCwd (Some here) a with
+             | Some mm => negb (creation_rel_ok (meaning_rel mm))
+             | None => false
+             end) || existsb (illegal_in_sym here rest) (arg_syms a)
+        | _ => false
+        end
+      else illegal_in_sym here rest n
+  end.
+
+(** [defs] oldest first *)
+Definition illegal_in_arg (here : text) (defs : list (sym * sdef)) (a : parg) : bool :=
+  existsb (illegal_in_sym here (rev defs)) (arg_syms a).
+
 (** * Cases of the correspondence check *)
 Inductive dkind := DKSyntax | DKReject | DKCrash.
 
@@ -234,7 +267,11 @@ Definition P_creation (c : pcase) : bool :=
         match spec_meaning (pc_here c) (pc_defs c) (c_default (pc_conf c)) (pc_arg c) with
         | Some m => creation_rel_ok (meaning_rel m)
         | None => true
-        end
+        end &&
+        negb (illegal_in_arg (pc_here c) (pc_defs c) (pc_arg c))
+    | AValidationCrash | AResolveCrash =>
+        (* a forbidden path symbol must be REJECTED (syntax error / VALIDATION_ERROR), not fail later *)
+        negb (illegal_in_arg (pc_here c) (pc_defs c) (pc_arg c))
     | _ => true
     end
   else true.
@@ -367,7 +404,8 @@ Definition P_icase (c : icase) : bool :=
      | IAccepted => match spec_meaning (ic_here c) (ic_defs c) (c_default (ic_conf c)) (ic_arg c) with
                     | Some m => creation_rel_ok (meaning_rel m)
                     | None => true
-                    end
+                    end && negb (illegal_in_arg (ic_here c) (ic_defs c) (ic_arg c))
+     | IValidationCrash => negb (illegal_in_arg (ic_here c) (ic_defs c) (ic_arg c))
      | _ => true
      end
    else true).
@@ -474,6 +512,10 @@ Definition P_ecase (c : ecase) : bool :=
        | ROpt r => if rel_in r (v_rels creation_variants) then true else everdict_eqb (ec_verdict c) ESyntax
        | _ => true
        end) &&
+      (if illegal_in_arg (ec_here c) (ec_defs c) (ec_arg c)
+       then (match ec_verdict c with ESyntax | EValidation => true | _ => false end) &&
+            match ec_created c with [] => true | _ => false end
+       else true) &&
       match m with
       | Some mm =>
           if creation_rel_ok (meaning_rel mm) then
@@ -633,7 +675,8 @@ Definition P_i2case (c : i2case) : bool :=
   | IAccepted => match spec_meaning (i2_here c) (i2_defs c) (c_default (i2_dst_conf c)) (i2_dst c) with
                  | Some m => creation_rel_ok (meaning_rel m)
                  | None => true
-                 end
+                 end && negb (illegal_in_arg (i2_here c) (i2_defs c) (i2_dst c))
+  | IValidationCrash => negb (illegal_in_arg (i2_here c) (i2_defs c) (i2_dst c))
   | _ => true
   end.
 
@@ -695,6 +738,9 @@ Definition P_e2case (c : e2case) : bool :=
   negb (e2_home_changed c) &&
   option_clause true (e2_dst_conf c) (e2_dst c) (everdict_eqb (e2_verdict c) ESyntax) &&
   option_clause false (e2_src_conf c) (e2_src c) (everdict_eqb (e2_verdict c) ESyntax) &&
+  (if illegal_in_arg (e2_here c) (e2_defs c) (e2_dst c)
+   then rejected_before_execution (e2_verdict c) && match e2_created c with [] => true | _ => false end
+   else true) &&
   match md with
   | Some mm =>
       if creation_rel_ok (meaning_rel mm) then
